@@ -249,6 +249,49 @@ func c19Locks(c *Ctx) {
 		c.R.Cond(ok, rule, "package variable "+name+" has a guard", c.P.Pos(g.Pos()), "guarded by "+guardTable[name],
 			"a package-level variable of a library package is written after init but has no guard lock in the confirmed table: connections on different threads race on it")
 	}
+	// 1b. shared mutable objects: a package variable holding a pointer to a struct whose methods are
+	// called at runtime (outside init) is shared by all connections; it needs a guard or a type
+	// known to be safe for concurrent use
+	safeTypes := map[string]bool{
+		"*github.com/aws/aws-sdk-go/service/s3.S3": true, // the SDK client is documented goroutine-safe (and it is guarded here anyway)
+		"*regexp.Regexp":                           true, // "A Regexp is safe for concurrent use by multiple goroutines"
+	}
+	flagged := map[*ssa.Global]bool{}
+	for _, a := range accs {
+		if a.write || flagged[a.g] {
+			continue
+		}
+		name := globalName(a.g)
+		if _, ok := guardTable[name]; ok {
+			continue
+		}
+		if strings.HasPrefix(name, "proto/") {
+			continue // generated code
+		}
+		pt, ok := a.g.Type().(*types.Pointer).Elem().(*types.Pointer)
+		if !ok {
+			continue
+		}
+		if _, isStruct := pt.Elem().Underlying().(*types.Struct); !isStruct || isSyncType(pt) || safeTypes[pt.String()] {
+			continue
+		}
+		// used as a method receiver or passed on?
+		ld := a.in.(*ssa.UnOp)
+		used := false
+		if ld.Referrers() != nil {
+			for _, r := range *ld.Referrers() {
+				if _, isCall := r.(ssa.CallInstruction); isCall {
+					used = true
+				}
+			}
+		}
+		if !used {
+			continue
+		}
+		flagged[a.g] = true
+		c.R.Bad(rule, "package variable "+name+" is a shared mutable object without a guard", c.P.Pos(a.in.Pos()),
+			"a package-level "+pt.String()+" is used (method calls) at runtime by "+core.FuncName(a.fn)+" with no guard lock and no known concurrency-safe type: every connection in the process shares it (e.g. a *rand.Rand from rand.New is not safe for concurrent use)")
+	}
 	// 2. every access of a guarded global holds its guard
 	held := map[*ssa.Function]map[ssa.Instruction]lockState{}
 	nAcc := 0
